@@ -1,9 +1,10 @@
+pub mod boundary;
 pub mod c01;
 
 use crate::run::Check;
 
 pub fn all() -> Vec<Check> {
-    vec![c01::check()]
+    vec![c01::check(), boundary::c07(), boundary::c08(), boundary::c09(), boundary::c10(), boundary::c13(), boundary::c19()]
 }
 
 pub fn get(id: &str) -> Option<Check> {
